@@ -108,7 +108,10 @@ func (fr *Frame) callFn(st *State, site ssa.Instruction, fn *ssa.Function, args 
 		return r
 	}
 	if c := v.lookupContract(fn); c != nil && c.Options["inline"] == "" && !(fr.top && fr.fn == fn) && !v.opaqueNames[fn.Name()] && !v.inlineNames[fn.Name()] {
-		sameLayer := v.layerKeyOf(fn.Pkg, c) == v.curLayerKey
+		extern := fn.Pkg == nil || !strings.HasPrefix(fn.Pkg.Pkg.Path(), "github.com/consensys/gnark-crypto")
+		// an assumed contract of a function of another module is stated in the calling package's own contract file,
+		// at that package's layer: it applies as it stands
+		sameLayer := extern || v.layerKeyOf(fn.Pkg, c) == v.curLayerKey
 		if !sameLayer && v.layerCompatible(fn, c) {
 			// a contract stated at a smaller layer (fewer abstract types, same interpretation of the shared ones)
 			// applies unchanged when the callee's signature does not involve any of the additional abstract types
